@@ -89,8 +89,8 @@ def s1(ck, an):
         at = fv.node_of(lp.body[0]).id
         start_v, end_v = (fv.sym.ev(ast.Name(id=x.id, ctx=ast.Load()), at) for x in t.elts[1].elts)
         for r in raises_in(fv):
-            sg = fv.syntactic_guards(r)
-            if len(sg) == 1 and sg[0][0] == "rel" and sg[0][1] == "<" and sg[0][4] == end_v - start_v:
+            sg = [p for p in fv.guard_predicates(r) if p[0] == "rel"]      # nested under `if end < start:` or after `if not end < start: continue`
+            if len(sg) == 1 and sg[0][1] == "<" and sg[0][4] == end_v - start_v:
                 ok = True
     ck.check(ok, "CMP", "S1.fold-well-formed", fv.f.short, fv.f.loc, "a fold with end < start is rejected", "verify_start_before_end does not raise for end < start", construct="if end < start: raise")
     fi = an.fa("PartitionTimeRanges.__init__")
